@@ -3,8 +3,8 @@ differential stream of C14): regenerate coq/theories/gen/CoalModelsGen.v from th
 with /verif/translate/py2coq.py and re-check proofs/GenEquiv.v (equivalence of the generated
 definitions with model/CoalModels.v and model/Validate.v) against it.
 
-Nothing is restored afterwards: the generated file always reflects the source of the last run; a run
-on the unchanged source reproduces the committed text byte for byte."""
+The committed generated file is never overwritten by a check (see run); `translate/py2coq.py --out` is how
+it is refreshed by hand after an intended change of the source."""
 import os
 import re
 import sys
@@ -45,50 +45,81 @@ def _build_errors(out):
     return errs
 
 
-def run(res_proof: dict) -> None:
+def run(res_proof: dict, pid: str = 'C14') -> None:
+    """Translate the CURRENT source.  If the translation is byte-identical to the committed
+    gen/CoalModelsGen.v, the equivalence theorems compiled by `make` (proofs/GenEquiv.vo) are about the
+    current source.  If it differs, the translation and a copy of proofs/GenEquiv.v (its import of the generated
+    module redirected) are compiled in a private scratch directory: the in-tree files are never modified by a
+    check, so concurrent checks and `git status` are unaffected.  A harmless rewrite of the source whose
+    translation still satisfies every equivalence theorem passes; otherwise the theorem that no longer checks
+    is named."""
     src = os.path.join(C.REPO, 'phasegen', 'coalescent_models.py')
-    info = {'source': src, 'regenerated': False, 'changed': False, 'functions': [], 'equivalence_checked': False}
+    info = {'source': src, 'translated': False, 'identical_to_committed': False, 'functions': [],
+            'equivalence_checked': False}
     res_proof['translator'] = info
-    # (a) translate the current source
     try:
         text, funcs = py2coq.translate(open(src).read())
     except (py2coq.Unsupported, SyntaxError, OSError) as e:
         res_proof['errors'].append(
-            f'translate step [py2coq]: the translator failed closed on {src}: {e} - gen/CoalModelsGen.v was not '
-            'regenerated, so the equivalence theorems of proofs/GenEquiv.v do not cover this source')
+            f'translate step [py2coq]: the translator failed closed on {src}: {e} - the equivalence theorems of '
+            'proofs/GenEquiv.v do not cover this source')
         res_proof['discharged'] = 0
         return
+    info['translated'] = True
+    info['functions'] = funcs
     try:
         old = open(OUT).read()
     except OSError:
         old = None
-    info['functions'] = funcs
-    info['changed'] = (old != text)
-    if info['changed']:           # same content: leave the file (and its .vo) alone
-        tmp = OUT + f'.{os.getpid()}.tmp'
-        with open(tmp, 'w') as fh:
-            fh.write(text)
-        os.replace(tmp, OUT)
-    info['regenerated'] = True
-    # (b) re-check GenEquiv.v (and whatever else depends on the generated file)
-    ok, out = C.ensure_build()
-    if ok:
-        info['equivalence_checked'] = True
+    if old == text:
+        info['identical_to_committed'] = True
+        # GenEquiv.vo was (re)built by ensure_build() in the proof step against exactly this text
+        info['equivalence_checked'] = os.path.exists(EQUIV + 'o') and \
+            os.path.getmtime(EQUIV + 'o') >= os.path.getmtime(OUT)
+        if not info['equivalence_checked']:
+            res_proof['errors'].append('translate step [build]: proofs/GenEquiv.vo is missing or older than gen/CoalModelsGen.v')
+            res_proof['discharged'] = 0
         return
-    # (c) name the failing step and theorem
-    errs = _build_errors(out)
-    mine = [e for e in errs if e[0] in ('theories/proofs/GenEquiv.v', 'theories/gen/CoalModelsGen.v', 'theories/gen/Special.v')]
-    if mine:
-        for f, line, thm, msg in mine:
-            if f.endswith('GenEquiv.v'):
-                res_proof['errors'].append(
-                    f'translate step [equivalence]: {thm or "(no theorem found)"} of proofs/GenEquiv.v no longer checks '
-                    f'against the translation of {src} (line {line}: {msg})')
-            else:
-                res_proof['errors'].append(f'translate step [generated file]: {f} line {line} does not compile: {msg}')
-        info['broken'] = [{'file': f, 'line': line, 'theorem': thm} for f, line, thm, _ in mine]
-    else:
-        where = '; '.join(f'{f}:{line}' for f, line, _, _ in errs) or 'no coqc error location found'
-        res_proof['errors'].append(f'translate step [build]: make failed after regenerating gen/CoalModelsGen.v ({where}): '
-                                   + out[-1500:])
-    res_proof['discharged'] = 0
+    # the source translates to something else than the committed file: check the equivalence in a scratch copy
+    import shutil
+    import tempfile
+    d = tempfile.mkdtemp(prefix='gen_', dir=C.WORK)
+    try:
+        with open(os.path.join(d, 'CoalModelsGen.v'), 'w') as fh:
+            fh.write(text)
+        eq = open(EQUIV).read()
+        eq2 = re.sub(r'\bgen\.CoalModelsGen\b', '', eq)
+        if eq2 == eq:
+            res_proof['errors'].append('translate step: proofs/GenEquiv.v does not import gen.CoalModelsGen as expected')
+            res_proof['discharged'] = 0
+            return
+        eq2 = eq2.replace('From PG Require Import base.Ops', 'From PGS Require Import CoalModelsGen.\nFrom PG Require Import base.Ops', 1)
+        with open(os.path.join(d, 'GenEquiv.v'), 'w') as fh:
+            fh.write(eq2)
+        base = ['coqc', '-Q', C.THEORIES, 'PG', '-Q', d, 'PGS', '-w', '-notation-overridden,-deprecated-hint-without-locality']
+        rc, out, _ = C.sh(base + [os.path.join(d, 'CoalModelsGen.v')], 600, cwd=d)
+        if rc != 0:
+            res_proof['errors'].append('translate step [generated file]: the translation of the current source does not compile: '
+                                       + ' '.join(out.split())[-600:])
+            res_proof['discharged'] = 0
+            return
+        rc, out, _ = C.sh(base + [os.path.join(d, 'GenEquiv.v')], 900, cwd=d)
+        if rc == 0:
+            info['equivalence_checked'] = True
+            info['note'] = 'source translates to a different text than the committed gen/CoalModelsGen.v, but every equivalence theorem still checks'
+            return
+        broken = []
+        for m in re.finditer(r'File "([^"]+)", line (\d+), characters [^\n]*\n((?:(?!File ").*\n?){0,12})', out):
+            if 'Error' not in m.group(3):
+                continue
+            thm = _theorem_at(os.path.join(d, 'GenEquiv.v'), int(m.group(2)))
+            broken.append(thm)
+            res_proof['errors'].append(
+                f'translate step [equivalence]: {thm or "(no theorem found)"} of proofs/GenEquiv.v no longer checks against the '
+                f'translation of {src}: ' + ' '.join(m.group(3).split())[:400])
+        if not broken:
+            res_proof['errors'].append('translate step [equivalence]: proofs/GenEquiv.v no longer checks: ' + out[-800:])
+        info['broken'] = broken
+        res_proof['discharged'] = 0
+    finally:
+        shutil.rmtree(d, ignore_errors=True)
